@@ -57,6 +57,7 @@ def _conj_classes(T, e, inv):
 def run_tables(ctx, case):
     g = _g()
     ctx.note(klass=case['kind'], desc=[case['kind'], case.get('n')], nontrivial=True, labels=[case['kind']])
+    ctx.fresh(lambda: _table(case)[0], 'Cayley table: a second call is not affected by editing the array returned by the first')
     T, order = _table(case)
     T = np.asarray(T)
     ctx.require(T.ndim == 2 and T.shape == (order, order), 'table has the stated order', f'{T.shape} vs {order}')
@@ -164,7 +165,9 @@ def run_partitions(ctx, case):
         want = np.array([[_count_parts_le(n, min(m, n)) if n > 0 else 1 for m in range(N + 1)] for n in range(N + 1)])
         # column m=0 is documented only implicitly (set to 1); compare m>=1
         ctx.require(np.array_equal(z[:, 1:], want[:, 1:]), 'full table = #partitions of n into parts <= m', f'N={N}')
+    ctx.fresh(lambda: g.get_sym_group_num_irrep(N, return_full=True)[1], 'get_sym_group_num_irrep(return_full): a second call is not affected by editing the table returned by the first')
     if N <= case['diag_cap']:
+        ctx.fresh(lambda: g.get_sym_group_young_diagram(N), 'get_sym_group_young_diagram: a second call is not affected by editing the array returned by the first')
         Y = np.asarray(g.get_sym_group_young_diagram(N))
         ctx.require(Y.ndim == 2 and Y.shape[1] == N, 'diagram list shape', f'{Y.shape}')
         got = [tuple(int(v) for v in row if v > 0) for row in Y]
@@ -187,6 +190,8 @@ def run_tableaux(ctx, case):
     want = ref.hook_number(shape)
     h = g.get_hook_length(*shape)
     ctx.require(int(h) == want, 'get_hook_length = hook formula', f'{shape}: {h} vs {want}')
+    if want <= 200:
+        ctx.fresh(lambda: g.get_all_young_tableaux(shape), 'get_all_young_tableaux: a second call is not affected by editing the array returned by the first')
     T = np.asarray(g.get_all_young_tableaux(shape))
     ctx.require(T.ndim == 3 and T.shape[1:] == (len(shape), shape[0]), 'tableaux array shape', f'{T.shape}')
     ctx.require(T.shape[0] == want, 'number of tableaux = hook-length number', f'{shape}: {T.shape[0]} vs {want}')
@@ -222,7 +227,7 @@ def cases_tableaux(tier):
 
 @st.composite
 def _strat_history(draw, tier='quick'):
-    ops = draw(st.lists(st.tuples(st.sampled_from(['count', 'full', 'diagram', 'hook', 'tableaux']), st.integers(1, 30)), min_size=2, max_size=8))
+    ops = draw(st.lists(st.tuples(st.sampled_from(['count', 'full', 'diagram', 'hook', 'tableaux', 'sym_table', 'alt_table']), st.integers(1, 30)), min_size=2, max_size=8))
     return dict(ops=[list(x) for x in ops])
 
 
@@ -250,6 +255,18 @@ def run_history(ctx, case):
             c, z = g.get_sym_group_num_irrep(N, return_full=True)
             ctx.require(int(c) == ref.num_partitions(N) and np.asarray(z).shape == (N + 1, N + 1) and int(np.asarray(z)[N, N]) == ref.num_partitions(N),
                         'return_full count', f'N={N}')
+        elif kind in ('sym_table', 'alt_table'):
+            n = 2 + N % (3 if ctx.tier == 'quick' else 4)  # S_2..S_4 (S_5 thorough); A_n for n>=3
+            alt = kind == 'alt_table' and n >= 3
+            T = np.asarray(g.get_symmetric_group_cayley_table(n, alternating=True) if alt else g.get_symmetric_group_cayley_table(n))
+            order = math.factorial(n) // (2 if alt else 1)
+            tag = f'{"A" if alt else "S"}_{n} after {ops}'
+            ctx.require(T.shape == (order, order), 'table of the stated order (any order of calls)', tag)
+            rng_ = np.arange(order)
+            ctx.require(all(np.array_equal(np.sort(T[i]), rng_) for i in range(order)) and all(np.array_equal(np.sort(T[:, i]), rng_) for i in range(order)),
+                        'Latin square (any order of calls)', tag)
+            ctx.require(np.array_equal(T[T[:, :, None], rng_[None, None, :]], T[rng_[:, None, None], T[None, :, :]]), 'associative (any order of calls)', tag)
+            ctx.label(kind)
         elif kind == 'diagram':
             N = min(N, 14)
             Y = np.asarray(g.get_sym_group_young_diagram(N))
